@@ -361,6 +361,46 @@ func checkZeroSkips(c *Ctx, rule string, ev *tmpl.Evaluator) {
 func checkValidationFlags(c *Ctx, gen *packages.Package) {
 	rule := "C02.R3.flags"
 	c.Rule(rule, "flags selecting validation branches depend on every input they must", 12)
+
+	// a property whose type is a polymorphic base type is always validated against it: hasValidations()
+	// deliberately answers false for a discriminated schema, so the lift in buildProperties must hold for
+	// IsBaseType on its own
+	if fd := load.FuncDecl(gen, "schemaGenContext.buildProperties"); fd != nil {
+		found := false
+		ast.Inspect(fd.Body, func(n ast.Node) bool {
+			ifs, ok := n.(*ast.IfStmt)
+			if !ok || len(ifs.Body.List) != 1 {
+				return true
+			}
+			as, ok := ifs.Body.List[0].(*ast.AssignStmt)
+			if !ok || len(as.Lhs) != 1 || goan.LastSel(as.Lhs[0]) != "HasValidations" || !goan.IsIdent(as.Rhs[0], "true") {
+				return true
+			}
+			atoms := map[string]bool{}
+			boolAtoms(ifs.Cond, atoms)
+			mentionsHV := false
+			env := map[string]bool{}
+			for a := range atoms {
+				env[a] = false
+				if strings.HasSuffix(a, ".IsBaseType") {
+					env[a] = true
+				}
+				if a == "hv" {
+					mentionsHV = true
+				}
+			}
+			if !mentionsHV {
+				return true
+			}
+			found = true
+			c.Check(boolEval(ifs.Cond, env), rule, "generator.schemaGenContext.buildProperties › a base-type property is validated whatever hasValidations says", c.posOf(gen, ifs.Pos()), "the lift holds for IsBaseType alone",
+				"`"+goan.ExprString(ifs.Cond)+"` is false for a property that is a $ref to a discriminated base type without other validations: the parent model neither generates nor calls its validator, and constraints declared in the base type are not enforced")
+			return true
+		})
+		if !found {
+			c.Unk(rule, "generator.schemaGenContext.buildProperties › lift of HasValidations for $ref'ed properties", c.posOf(gen, fd.Pos()), "the `if hv …` lift was not found")
+		}
+	}
 	info := gen.TypesInfo
 	mentionsAll := func(fn string, want []string) {
 		fd := load.FuncDecl(gen, fn)
